@@ -15,6 +15,13 @@ class Spec:
     def __init__(self, disk):
         self.disk = {k: list(v) for k, v in disk.items()}     # name -> list of lines/records
         self.h = {}                                           # name -> dict(mode, pos/cursor, recs)
+    def nrec(self, f):
+        """records of a file opened FOR RANDOM: its lines without the empty lines at the end (the loader drops them; they stay on
+        disk until the handle is modified)"""
+        n = len(self.disk[f])
+        while n > 0 and self.disk[f][n - 1] == '':
+            n -= 1
+        return n
     def apply(self, op):
         k, f = op[0], op[1]
         if k == 'OPEN':
@@ -44,17 +51,18 @@ class Spec:
             self.disk[f].append(op[2]); return 'ok'
         if k == 'SEEK':
             if m != 'RANDOM': return 'err'
-            if 1 <= op[2] <= len(self.disk[f]) + 1: h['cur'] = op[2]; return 'ok'
+            if 1 <= op[2] <= self.nrec(f) + 1: h['cur'] = op[2]; return 'ok'
             return 'err'
         if k == 'PUTRECORD':
             if m != 'RANDOM': return 'err'
-            n = len(self.disk[f])
+            n = self.nrec(f)
+            del self.disk[f][n:]
             if h['cur'] <= n: self.disk[f][h['cur'] - 1] = op[2]
             else: self.disk[f].append(op[2])
             return 'ok'
         if k == 'GETRECORD':
             if m != 'RANDOM': return 'err'
-            if h['cur'] <= len(self.disk[f]):
+            if h['cur'] <= self.nrec(f):
                 v = self.disk[f][h['cur'] - 1]
                 return ('val', v) if v.startswith('r') else 'err'      # a text line is not a record: reading it is a runtime error
             return 'err'
